@@ -14,8 +14,8 @@ import (
 // NodeBP is the blueprint of one node (G1).
 type NodeBP struct {
 	Tag     string    `json:"t"`
-	Value   string    `json:"v,omitempty"`
-	Pointer string    `json:"p,omitempty"`
+	Value   Str       `json:"v,omitempty"`
+	Pointer Str       `json:"p,omitempty"`
 	Kids    []*NodeBP `json:"k,omitempty"`
 }
 
@@ -208,15 +208,15 @@ func Forest(o ForestOpts) *rapid.Generator[*ForestBP] {
 				nb.Tag = o.Tag.Draw(t, "tag")
 			}
 			if IsRole(nb.Tag) {
-				nb.Value = "@" + rapid.SampledFrom([]string{"I1", "P1", "I2", "x y", "F1"}).Draw(t, "rolep") + "@"
+				nb.Value = Str("@" + rapid.SampledFrom([]string{"I1", "P1", "I2", "x y", "F1"}).Draw(t, "rolep") + "@")
 			} else if !IsRecord(nb.Tag) {
-				nb.Value = Value().Draw(t, "val")
+				nb.Value = Str(Value().Draw(t, "val"))
 			}
 			if !IsRole(nb.Tag) {
 				if IsRecord(nb.Tag) {
-					nb.Pointer = rapid.SampledFrom([]string{"I1", "I2", "P1", "F1", "F2", "", "a b"}).Draw(t, "recp")
+					nb.Pointer = Str(rapid.SampledFrom([]string{"I1", "I2", "P1", "F1", "F2", "", "a b"}).Draw(t, "recp"))
 				} else if rapid.IntRange(0, 4).Draw(t, "hasp") == 0 {
-					nb.Pointer = Pointer().Draw(t, "ptr")
+					nb.Pointer = Str(Pointer().Draw(t, "ptr"))
 				}
 			}
 			return nb
@@ -310,7 +310,7 @@ func (f *ForestBP) Build() *Built {
 		var node gedcom.Node
 		switch {
 		case bp.Tag == "INDI":
-			in := b.Doc.AddIndividual(bp.Pointer)
+			in := b.Doc.AddIndividual(string(bp.Pointer))
 			if !root {
 				b.Doc.DeleteNode(in)
 				parent.AddNode(in)
@@ -319,7 +319,7 @@ func (f *ForestBP) Build() *Built {
 			b.Nodes[bp] = node
 			attachKids(bp, node)
 		case bp.Tag == "FAM":
-			fn := b.Doc.AddFamily(bp.Pointer)
+			fn := b.Doc.AddFamily(string(bp.Pointer))
 			if !root {
 				b.Doc.DeleteNode(fn)
 				parent.AddNode(fn)
@@ -329,7 +329,7 @@ func (f *ForestBP) Build() *Built {
 			b.Nodes[bp] = node
 			attachKids(bp, node)
 		case IsRole(bp.Tag):
-			ptr := ValueToPointer(bp.Value)
+			ptr := ValueToPointer(string(bp.Value))
 			pf, parentIsFam := parent.(*gedcom.FamilyNode)
 			if f.Direct && parentIsFam && pf == lastFam {
 				before := len(pf.Nodes())
@@ -372,7 +372,7 @@ func (f *ForestBP) Build() *Built {
 		default:
 			tag := gedcom.TagFromString(bp.Tag)
 			if f.TopDown {
-				node = gedcom.NewNode(tag, bp.Value, bp.Pointer)
+				node = gedcom.NewNode(tag, string(bp.Value), string(bp.Pointer))
 				b.Nodes[bp] = node
 				if root {
 					b.Doc.AddNode(node)
@@ -386,7 +386,7 @@ func (f *ForestBP) Build() *Built {
 				for _, k := range bp.Kids {
 					build(k, holder, false)
 				}
-				node = gedcom.NewNode(tag, bp.Value, bp.Pointer, holder.Nodes()...)
+				node = gedcom.NewNode(tag, string(bp.Value), string(bp.Pointer), holder.Nodes()...)
 				b.Nodes[bp] = node
 				if root {
 					b.Doc.AddNode(node)
@@ -420,11 +420,11 @@ func (f *ForestBP) Render() string {
 func RenderLine(level int, n *NodeBP) string {
 	s := fmt.Sprintf("%d ", level)
 	if n.Pointer != "" {
-		s += "@" + n.Pointer + "@ "
+		s += "@" + string(n.Pointer) + "@ "
 	}
 	s += n.Tag
 	if n.Value != "" {
-		s += " " + n.Value
+		s += " " + string(n.Value)
 	}
 	return s
 }
